@@ -442,6 +442,7 @@ func genAccessor(repo, outDir string) error {
 		if err != nil {
 			return fmt.Errorf("untranslatable: %s:1: does not parse: %v", f, err)
 		}
+		normalizeFile(g.fset, a)
 		g.asts[f] = a
 	}
 
